@@ -17,7 +17,7 @@ func runC04(tb ev.TB, p sim.Prog) ev.Result {
 	nt := false
 	obs := func(tb ev.TB, w *sim.World, info *sim.OpInfo) {
 		switch info.Op.Kind {
-		case "append", "join", "rebuild", "load":
+		case "append", "join", "rebuild", "load", "loadtail":
 			sim.MustOK(tb, info)
 		}
 		if info.Op.Kind != "append" {
